@@ -190,6 +190,11 @@ class RemoteProxy(BaseProxy):
         return self._meta
 
     async def send(self, request: Any) -> Any:
+        if self._reader_task.done():
+            # The simulator has closed the connection (or died) while no
+            # request was pending. The channel would wait forever for a
+            # reply that cannot come anymore.
+            raise ConnectionResetError("The simulator has closed its connection.")
         return await self._channel.send(request)
 
     async def stop(self) -> None:
